@@ -959,3 +959,47 @@ example := trsv_spec_partial Tr.T (by decide) true 2 3 (#[2, 0, 99, 1, 4, 99] : 
   (by decide) (by decide) (by decide)
 
 end Slu.Cblas
+
+namespace Slu.Cblas
+open Finset Slu.Kernels
+section trsv
+variable {K : Type} [Field K] [Conj K] [Inhabited K]
+variable [BEq K]
+
+theorem trsv_lower_trans_eq_sweep (tr : Tr) (htr : tr ≠ Tr.N) (nounit : Bool) (n lda : Nat) (a x : Array K) (incx : Int) :
+    trsv false tr nounit n a lda x incx =
+      sweepLT n (spos n incx) (fun i j => cj tr a[i + j * lda]!) (fun j => cj tr a[j + j * lda]!) nounit x n := by
+  have h : (tr == Tr.N) = false := by
+    cases tr
+    · exact absurd rfl htr
+    · rfl
+    · rfl
+  unfold trsv sweepLT
+  simp only [h, Bool.false_eq_true, if_false]
+
+/-- **trsv (partial, second branch: `uplo = L`, `trans = T` or `C`).**  The strided entries of the result
+solve the UPPER triangular system `op(A) r = x`: for every row `j`,
+`Σ_{i = j+1}^{n-1} [conj]A(i,j) r_i + d_j r_j = x_j` (the sum is written in the order the code runs:
+`i = n-1-ii`, `ii < n-1-j`); every other position and the size are unchanged. -/
+theorem trsv_spec_partial_lower (tr : Tr) (htr : tr ≠ Tr.N) (nounit : Bool) (n lda : Nat) (a x : Array K) (incx : Int)
+    (hinc : incx ≠ 0) (hb : ∀ i, i < n → spos n incx i < x.size)
+    (hd : nounit = true → ∀ j, j < n → cj tr a[j + j * lda]! ≠ 0) :
+    (trsv false tr nounit n a lda x incx).size = x.size ∧
+    (∀ j, j < n →
+      (∑ ii ∈ range (n - 1 - j), cj tr a[(n - 1 - ii) + j * lda]! * (trsv false tr nounit n a lda x incx)[spos n incx (n - 1 - ii)]!) +
+        (if nounit then cj tr a[j + j * lda]! else 1) * (trsv false tr nounit n a lda x incx)[spos n incx j]! =
+      x[spos n incx j]!) ∧
+    (∀ p, (∀ i, i < n → spos n incx i ≠ p) → (trsv false tr nounit n a lda x incx)[p]! = x[p]!) := by
+  rw [trsv_lower_trans_eq_sweep tr htr]
+  obtain ⟨h1, h2, _, h4⟩ := sweepLT_spec n (spos n incx) (fun i j => cj tr a[i + j * lda]!)
+    (fun j => cj tr a[j + j * lda]!) nounit x (fun i j hi hj h => spos_inj n incx hinc i j hi hj h) hb hd n (le_refl _)
+  exact ⟨h1, fun j hj => h2 j (by omega) hj, h4⟩
+
+end trsv
+
+/-- lower triangular `[[2,0],[1,4]]` (lda = 2), `A' r = x`, `incx = 2` -/
+example : trsv false Tr.T true 2 (#[2, 1, 0, 4] : Array Rat) 2 #[5, 77, 8] 2 = #[3 / 2, 77, 2] := by decide +kernel
+example := trsv_spec_partial_lower Tr.C (by decide) true 2 2 (#[2, 1, 0, 4] : Array Rat) #[5, 77, 8] 2
+  (by decide) (by decide) (by decide)
+
+end Slu.Cblas
